@@ -21,10 +21,18 @@ Proof.
   apply nth_error_None in En. apply Nat.leb_gt in E. unfold plen in E. lia.
 Qed.
 
+Lemma peekF_np p : np (peekF ptn p).
+Proof.
+  unfold np, peekF. destruct (Nat.leb (plen ptn) (b_i p)) eqn:E; [discriminate|].
+  destruct (nth_error ptn (b_i p)) eqn:En; [discriminate|].
+  apply nth_error_None in En. apply Nat.leb_gt in E. unfold plen in E. lia.
+Qed.
+
 Ltac np_step :=
   match goal with
   | |- np (bind _ _) => apply bind_np; [|intros]
   | |- np (next _ _) => apply next_np
+  | |- np (peekF _ _) => apply peekF_np
   | |- np (Ok _) => unfold np; discriminate
   | |- np (Err _) => unfold np; discriminate
   | |- np BFuel => unfold np; discriminate
@@ -36,7 +44,7 @@ Ltac np_step :=
 Lemma getCharRange_np c : np (getCharRange c).
 Proof. unfold getCharRange. repeat np_step. Qed.
 
-Lemma unionLoop_np : forall fuel neg s b p, np (unionLoop ptn fuel neg s b p).
+Lemma unionLoop_np : forall fuel first neg s b p, np (unionLoop ptn fuel first neg s b p).
 Proof.
   induction fuel; intros; simpl; [unfold np; discriminate|].
   repeat first [apply IHfuel | apply getCharRange_np | np_step].
